@@ -431,3 +431,212 @@ Proof.
   unfold cmsg_eqv_b, cmsg_eqv.
   rewrite !andb_true_iff, (opt_eqv_b_iff _ _ proposed_eqv_b_iff), !(opt_eqv_b_iff _ _ sparse_eqv_b_iff). tauto.
 Qed.
+
+(** * Round-trip theorems *)
+Lemma pmap_eqv_list m : pmap_eqv m (Some (pm_list m)).
+Proof. intros k. reflexivity. Qed.
+
+Lemma pmap_eqv_sorted m : pmap_wf_b m = true -> pmap_eqv m (Some (sort_kv (pm_list m))).
+Proof.
+  intros H k. unfold pm_find. cbn [pm_list]. apply nodup_keys_NoDup in H.
+  symmetry. apply alist_find_perm; [apply sort_kv_perm|apply sort_kv_nodup; exact H].
+Qed.
+
+Lemma valset_eqv_rt r vs : valset_wf_b r vs = true -> valset_eqv vs (rt_valset_of vs).
+Proof.
+  intros H. unfold valset_wf_b in H. apply andb_true_iff in H as [_ H].
+  apply (dec2b_iff (list_eq_dec opubkey_dec)) in H.
+  unfold valset_eqv, rt_valset_of. cbn [vs_vals vs_pubkeys vs_pkh vs_vph opt_list]. auto.
+Qed.
+
+Definition rt_cp_of (p : commit_proof) : commit_proof :=
+  mk_commit_proof (cp_round p) (cp_pkh p) (Some (pm_list (cp_proofs p))).
+Definition rt_header_of (h : header) : header :=
+  mk_header (h_hash h) (h_prev h) (h_height h) (rt_cp_of (h_pcp h)) (rt_valset_of (h_vs h))
+            (rt_valset_of (h_nvs h)) (h_dataid h) (h_pash h) (h_user h) (h_driver h).
+
+Lemma header_rt_exact r h :
+  reg_wf_b r = true -> header_wf_b r h = true ->
+  exists j, to_json_header r h = Ok j /\ to_header r j = Ok (Some (rt_header_of h)).
+Proof.
+  intros Hr H. unfold header_wf_b in H. apply andb_true_iff in H as [H Hp].
+  apply andb_true_iff in H as [H1 H2].
+  destruct (valset_rt r _ Hr H1) as [j1 [E1 D1]]. destruct (valset_rt r _ Hr H2) as [j2 [E2 D2]].
+  eexists. split.
+  - unfold to_json_header. rewrite E1, E2. cbn [bind]. reflexivity.
+  - unfold to_header. cbn [jh_vs jh_nvs jh_pcp jh_hash jh_prev jh_height jh_dataid jh_pash jh_user jh_driver].
+    rewrite D1, D2. cbn [bindE].
+    change (jcp_pkh (to_json_commit_proof (h_pcp h))) with (Some (cp_pkh (h_pcp h))). cbv iota.
+    rewrite (commit_proof_rt _ Hp). reflexivity.
+Qed.
+
+Lemma commit_proof_eqv_rt p : commit_proof_eqv p (rt_cp_of p).
+Proof. unfold commit_proof_eqv, rt_cp_of. cbn. repeat split. Qed.
+
+Lemma header_eqv_rt r h : header_wf_b r h = true -> header_eqv h (rt_header_of h).
+Proof.
+  intros H. unfold header_wf_b in H. apply andb_true_iff in H as [H _]. apply andb_true_iff in H as [H1 H2].
+  unfold header_eqv, rt_header_of. cbn. repeat split; try (eapply valset_eqv_rt; eassumption).
+Qed.
+
+(** header_roundtrip *)
+Lemma header_roundtrip r h :
+  reg_wf_b r = true -> header_wf_b r h = true ->
+  exists h', rt_header r h = Ok (Some h') /\ header_eqv h h'.
+Proof.
+  intros Hr H. destruct (header_rt_exact r h Hr H) as [j [E D]].
+  exists (rt_header_of h). split.
+  - unfold rt_header. rewrite E. exact D.
+  - eapply header_eqv_rt; exact H.
+Qed.
+
+(** proposed_header_roundtrip *)
+Lemma proposed_header_roundtrip r p :
+  reg_wf_b r = true -> proposed_wf_b r p = true ->
+  exists p', rt_proposed r p = Ok (Some p') /\ proposed_eqv p p'.
+Proof.
+  intros Hr H. unfold proposed_wf_b in H. apply andb_true_iff in H as [Hh Hk].
+  destruct (header_rt_exact r _ Hr Hh) as [j [E D]].
+  exists (mk_proposed (rt_header_of (ph_header p)) (ph_round p) (ph_pub p) (ph_user p) (ph_driver p) (ph_sig p)).
+  split.
+  - unfold rt_proposed, to_json_proposed. rewrite E. cbn [bind].
+    destruct (ph_pub p) as [k|] eqn:Ek.
+    + destruct (reg_roundtrip r k Hr Hk) as [b [Em Eu]]. rewrite Em. cbn [bind].
+      unfold to_proposed. cbn [jph_header jph_pub jph_round jph_sig jph_user jph_driver].
+      rewrite D. cbn [bindE]. rewrite Eu. reflexivity.
+    + cbn [bind]. unfold to_proposed. cbn [jph_header jph_pub jph_round jph_sig jph_user jph_driver].
+      rewrite D. reflexivity.
+  - unfold proposed_eqv. split; [eapply header_eqv_rt; exact Hh|cbn; repeat split].
+Qed.
+
+(** committed_header_roundtrip *)
+Lemma committed_header_roundtrip r c :
+  reg_wf_b r = true -> committed_wf_b r c = true ->
+  exists c', rt_committed r c = Ok (Some c') /\ committed_eqv c c'.
+Proof.
+  intros Hr H. unfold committed_wf_b in H. apply andb_true_iff in H as [Hh Hp].
+  destruct (header_rt_exact r _ Hr Hh) as [j [E D]].
+  exists (mk_committed (rt_header_of (ch_header c)) (rt_cp_of (ch_proof c))). split.
+  - unfold rt_committed, to_json_committed. rewrite E. cbn [bind].
+    unfold to_committed. cbn [jch_header jch_proof]. rewrite D. cbn [bindE].
+    rewrite (commit_proof_rt _ Hp). reflexivity.
+  - split; [eapply header_eqv_rt; exact Hh|apply commit_proof_eqv_rt].
+Qed.
+
+(** prevote_proof_roundtrip / precommit_proof_roundtrip (both are [sparse_proof]) *)
+Lemma sparse_proof_roundtrip p : sparse_wf_b p = true -> sparse_eqv p (rt_sparse p).
+Proof.
+  intros H. rewrite (sparse_rt p H). unfold sparse_eqv. cbn. repeat split.
+  apply pmap_eqv_sorted. exact H.
+Qed.
+
+(** message_variant_preserved, for EVERY message (any number of fields set) whose encoding
+    decodes: the decoded message carries exactly the variant the encoder chose. *)
+Lemma message_variant_preserved r m m' :
+  rt_cmsg r m = Ok (Some m') -> cmsg_variant m' = cmsg_variant m /\ variant_of m' = cmsg_variant m.
+Proof.
+  unfold rt_cmsg, to_json_cmsg, cmsg_variant.
+  destruct (cm_ph m) as [ph|].
+  - destruct (to_json_proposed r ph) as [j|s]; cbn [bind]; [|discriminate].
+    unfold to_cmsg. cbn [jcm_ph jcm_pv jcm_pc].
+    destruct (to_proposed r j) as [[x|]|s]; cbn [bindE]; try discriminate.
+    intros E. inversion E; subst. split; reflexivity.
+  - destruct (cm_pv m) as [p|].
+    + cbn [bind]. unfold to_cmsg. cbn [jcm_ph jcm_pv jcm_pc]. intros E. inversion E; subst. split; reflexivity.
+    + destruct (cm_pc m) as [p|]; cbn [bind]; unfold to_cmsg; cbn [jcm_ph jcm_pv jcm_pc];
+        intros E; inversion E; subst; split; reflexivity.
+Qed.
+
+(** consensus message round trip: a message with exactly one field set comes back with the same
+    field set and an equivalent value. *)
+Lemma cmsg_roundtrip r m :
+  reg_wf_b r = true -> cmsg_wf_b r m = true ->
+  exists m', rt_cmsg r m = Ok (Some m') /\ cmsg_eqv m m' /\ variant_of m' = variant_of m.
+Proof.
+  intros Hr H. unfold cmsg_wf_b in H. destruct m as [[ph|] [pv|] [pc|]]; cbn [cm_ph cm_pv cm_pc] in H; try discriminate.
+  - destruct (proposed_header_roundtrip r ph Hr H) as [p' [E V]].
+    exists (mk_cmsg (Some p') None None). unfold rt_cmsg, to_json_cmsg. cbn [cm_ph cm_pv cm_pc].
+    unfold rt_proposed in E. destruct (to_json_proposed r ph) as [j|s]; cbn [bind] in *; [|discriminate].
+    unfold to_cmsg. cbn [jcm_ph jcm_pv jcm_pc]. rewrite E. cbn [bindE].
+    split; [reflexivity|]. split; [|reflexivity].
+    unfold cmsg_eqv. cbn [cm_ph cm_pv cm_pc opt_eqv]. split; [exact V|split; exact I].
+  - exists (mk_cmsg None (Some (rt_sparse pv)) None). unfold rt_cmsg, to_json_cmsg. cbn [cm_ph cm_pv cm_pc bind].
+    unfold to_cmsg. cbn [jcm_ph jcm_pv jcm_pc]. split; [reflexivity|]. split; [|reflexivity].
+    unfold cmsg_eqv. cbn [cm_ph cm_pv cm_pc opt_eqv]. repeat split; try exact I. apply sparse_proof_roundtrip. exact H.
+  - exists (mk_cmsg None None (Some (rt_sparse pc))). unfold rt_cmsg, to_json_cmsg. cbn [cm_ph cm_pv cm_pc bind].
+    unfold to_cmsg. cbn [jcm_ph jcm_pv jcm_pc]. split; [reflexivity|]. split; [|reflexivity].
+    unfold cmsg_eqv. cbn [cm_ph cm_pv cm_pc opt_eqv]. repeat split; try exact I. apply sparse_proof_roundtrip. exact H.
+Qed.
+
+(** A decoded message never has more than one field set. *)
+Lemma decoded_message_single_variant r j m : to_cmsg r j = Ok (Some m) -> variant_of m <> 4.
+Proof.
+  unfold to_cmsg. destruct (jcm_ph j) as [| |jp]; destruct (jcm_pv j) as [| |p1]; destruct (jcm_pc j) as [| |p2];
+    try discriminate;
+    try (intros E; inversion E; subst; cbn; discriminate);
+    (destruct (to_proposed r jp) as [[x|]|s]; cbn [bindE]; try discriminate;
+     intros E; inversion E; subst; cbn; discriminate).
+Qed.
+
+(** Duplicate entries in a decoded proof list: the LAST entry for a block hash wins. *)
+Lemma alist_find_set {V} (m : list (list N * V)) k v k' :
+  alist_find k' (alist_set m k v) = if bytes_eqb k k' then Some v else alist_find k' m.
+Proof.
+  induction m as [|[k0 v0] m IH]; cbn [alist_set alist_find].
+  - reflexivity.
+  - destruct (bytes_eqb k0 k) eqn:E0.
+    + apply bytes_eqb_eq in E0. subst k0. cbn [alist_find]. destruct (bytes_eqb k k'); reflexivity.
+    + cbn [alist_find]. destruct (bytes_eqb k0 k') eqn:E1.
+      * destruct (bytes_eqb k k') eqn:E2; [|reflexivity].
+        apply bytes_eqb_eq in E1, E2. subst. rewrite bytes_eqb_refl in E0. discriminate.
+      * exact IH.
+Qed.
+
+Fixpoint find_last (k : list N) (es : list jentry) (acc : option gsigs) : option gsigs :=
+  match es with
+  | [] => acc
+  | e :: es' => find_last k es' (if bytes_eqb (je_key e) k then Some (je_sigs e) else acc)
+  end.
+
+Lemma build_map_last_wins es k : alist_find k (build_map es) = find_last k es None.
+Proof.
+  unfold build_map.
+  assert (G : forall acc, alist_find k (fold_left (fun m e => alist_set m (je_key e) (je_sigs e)) es acc)
+                          = find_last k es (alist_find k acc)).
+  { induction es as [|e es IH]; intros acc; cbn [fold_left find_last]; [reflexivity|].
+    rewrite IH, alist_find_set. reflexivity. }
+  apply G.
+Qed.
+
+(** * The model's outcomes satisfy the monitors (what the check evaluates on the real outcomes) *)
+Lemma model_satisfies_rt_monitors r :
+  reg_wf_b r = true ->
+  (forall h, header_wf_b r h = true -> c14_rt_header_mon h (rt_header r h) = true) /\
+  (forall p, proposed_wf_b r p = true -> c14_rt_proposed_mon p (rt_proposed r p) = true) /\
+  (forall c, committed_wf_b r c = true -> c14_rt_committed_mon c (rt_committed r c) = true) /\
+  (forall p, sparse_wf_b p = true -> c14_rt_sparse_mon p (Ok (Some (rt_sparse p))) = true) /\
+  (forall m, cmsg_wf_b r m = true ->
+     c14_rt_cmsg_mon m (rt_cmsg r m) = true /\ c14_variant_mon m (rt_cmsg r m) = true).
+Proof.
+  intros Hr. repeat split.
+  - intros h H. destruct (header_roundtrip r h Hr H) as [h' [E V]]. rewrite E. cbn. apply header_eqv_b_iff, V.
+  - intros p H. destruct (proposed_header_roundtrip r p Hr H) as [p' [E V]]. rewrite E. cbn. apply proposed_eqv_b_iff, V.
+  - intros c H. destruct (committed_header_roundtrip r c Hr H) as [c' [E V]]. rewrite E. cbn. apply committed_eqv_b_iff, V.
+  - intros p H. cbn. apply sparse_eqv_b_iff, sparse_proof_roundtrip, H.
+  - destruct (cmsg_roundtrip r m Hr H) as [m' [E [V _]]]. rewrite E. cbn. apply cmsg_eqv_b_iff, V.
+  - destruct (cmsg_roundtrip r m Hr H) as [m' [E [_ V]]]. rewrite E. cbn. rewrite V. apply N.eqb_refl.
+Qed.
+
+(** Monitor soundness: a true monitor on an observed outcome means the observed value is
+    related to the original by the written-out relation. *)
+Lemma rt_monitor_sound :
+  (forall h o, c14_rt_header_mon h o = true -> exists h', o = Ok (Some h') /\ header_eqv h h') /\
+  (forall p o, c14_rt_proposed_mon p o = true -> exists p', o = Ok (Some p') /\ proposed_eqv p p') /\
+  (forall c o, c14_rt_committed_mon c o = true -> exists c', o = Ok (Some c') /\ committed_eqv c c') /\
+  (forall p o, c14_rt_sparse_mon p o = true -> exists p', o = Ok (Some p') /\ sparse_eqv p p') /\
+  (forall m o, c14_rt_cmsg_mon m o = true -> exists m', o = Ok (Some m') /\ cmsg_eqv m m').
+Proof.
+  repeat split; intros x o H; destruct o as [[y|]|s]; cbn in H; try discriminate; exists y; split; try reflexivity.
+  - apply header_eqv_b_iff, H. - apply proposed_eqv_b_iff, H. - apply committed_eqv_b_iff, H.
+  - apply sparse_eqv_b_iff, H. - apply cmsg_eqv_b_iff, H.
+Qed.
